@@ -4,7 +4,7 @@ from harness import gen_seq
 from runner import Case, CaseSet
 
 ID = 'C04'
-OBLIGATIONS = ['Props/C04.v', 'Props/Tie/tables_tie.v', 'Props/Tie/charge_tie.v', 'Props/Tie/delta_formulas_tie.v', 'Props/Tie/minipy_counts_tie.v']
+OBLIGATIONS = ['Props/C04.v', 'Props/Tie/tables_tie.v', 'Props/Tie/charge_tie.v', 'Props/Tie/delta_formulas_tie.v', 'Props/Tie/minipy_counts_tie.v', 'Props/Tie/minipy_composition_tie.v']
 RULE = ('the 20 singletons, all 400 pairs, random class sequences up to 120 (thorough 500) residues, each also as a '
         'random permutation; 18 getters per sequence; non-trivial = distinct sequence of >= 3 residues with >= 2 distinct letters')
 TRUSTED = ['Spec/Tables.v: published per-residue values transcribed by hand (KD, WW, PPII x3, pKa, masses, disorder list)']
@@ -15,7 +15,7 @@ LEVEL_TEXT = ('Proof: every literal table cell, shift/normalisation constant, re
               'Uversky = KD/9, FER = FCR + fP are theorems for all sequences. All 18 getters compared with the model in Coq.')
 LEVEL_NOTE = 'Closed under the global context. Trusts the hand transcription of the published tables, py2coq, harness.'
 LEVEL_NOTE_MINIPY = (' Whole-function ties (minipy_counts_tie.v): countPos / countNeg / countNeut / Fplus / Fminus / FCR / NCPR are translated into Core/MiniPy.v terms on every run; '
-                     'for every charge pattern the counts are the numbers of positive / negative / zero entries and the fractions are the counts over the length (an exception exactly for the empty sequence); with a pH, charge_at_pH is an oracle.')
+                     'for every charge pattern the counts are the numbers of positive / negative / zero entries and the fractions are the counts over the length (an exception exactly for the empty sequence); with a pH, charge_at_pH is an oracle; (minipy_composition_tie.v) meanHydropathy / uverskyHydropathy / meanWWHydropathy / FPPII_chain / molecular_weight / fraction_disorder_promoting: residue-by-residue sums of their table (tables as primitives or read from the data module) for every sequence.')
 TECHNIQUE = 'Coq proof (exhaustive table tie by vm_compute + Q-sum algebra) + in-Coq differential correspondence'
 
 IMPORTS = ('From Coq Require Import List ZArith QArith String.\n'
